@@ -678,6 +678,209 @@ def by_name(sites):
 
 
 # --------------------------------------------------------------------------
+# namespaces and forms  (model: lean/XsdataModel/Gen/Ns.lean)
+#   ctx  := {"tns": str|None, "default": str|None (xmlns="…"), "prefixes": {prefix: uri}, "eform": None|"qualified"|"unqualified", "aform": …}
+#   decl := {"attr": bool, "kind": "local", "name", "form": None|"qualified"|"unqualified", "tnsattr": str|None}
+#         | {"attr": bool, "kind": "ref", "prefix": str|None, "name"}      (reference to a global element / attribute)
+#   The main schema s.xsd has the context `ctx`; o.xsd (target namespace urn:o) and n.xsd (no target namespace)
+#   declare the global elements g / attributes ga that references may point to.
+# --------------------------------------------------------------------------
+NS_O = "urn:o"
+
+
+def ns_spec(ctx, d):
+    """XSD: the namespace name of the element / attribute a declaration or reference stands for ('' = none)"""
+    if d["kind"] == "ref":
+        if d["prefix"] is not None:
+            return ctx["prefixes"].get(d["prefix"]) or ""
+        if ctx["default"]:
+            return ctx["default"]
+        # chameleon include: the names without namespace move to the includer's target namespace
+        return (ctx["tns"] or "") if ctx.get("chameleon") else ""
+    if d["kind"] == "global":
+        return ctx["tns"] or ""
+    if d.get("tnsattr") is not None:
+        return d["tnsattr"]
+    form = d["form"] or (ctx["aform"] if d["attr"] else ctx["eform"]) or "unqualified"
+    return (ctx["tns"] or "") if form == "qualified" else ""
+
+
+def ns_ref_target(ctx, d):
+    """the namespace a reference points into, and whether the three fixture schemas declare it there"""
+    ns = ns_spec(ctx, d)
+    return ns
+
+
+def gen_ns_ctx(rng):
+    tns = rng.choice(["urn:t", "urn:t", "urn:t", None])
+    prefixes = {}
+    default = None
+    if tns and rng.random() < 0.75:
+        prefixes["t"] = tns
+    r = rng.random()
+    if r < 0.4:
+        default = tns
+    elif r < 0.6:
+        default = NS_O
+    if rng.random() < 0.6 or default == NS_O:
+        prefixes["o"] = NS_O
+    chameleon = bool(tns) and rng.random() < 0.15
+    if chameleon and rng.random() < 0.7:
+        prefixes.pop("t", None)
+        default = None if default == tns else default
+    return {"tns": tns, "chameleon": chameleon, "default": default, "prefixes": prefixes,
+            "eform": rng.choice([None, "qualified", "unqualified"]), "aform": rng.choice([None, None, "qualified", "unqualified"])}
+
+
+def gen_ns_decls(rng, ctx, n=None):
+    """declarations that resolve: a reference names a global element/attribute that one of the schemas declares"""
+    decls = []
+    names = iter("abcdefghij")
+    used_refs = set()
+    for _ in range(n or rng.randint(1, 6)):
+        attr = rng.random() < 0.4
+        r = rng.random()
+        if r < 0.55:
+            decls.append({"attr": attr, "kind": "local", "name": next(names), "form": rng.choice([None, None, "qualified", "unqualified"]), "tnsattr": None})
+            continue
+        # a reference: into the target namespace (global h*/ha* of s.xsd), into urn:o (g / ga), or into no namespace (n / na)
+        cands = []
+        for pfx in [None] + list(ctx["prefixes"]):
+            ns = ns_spec(ctx, {"kind": "ref", "prefix": pfx})
+            if ns == (ctx["tns"] or ""):
+                cands.append((pfx, "ha" if attr else "h"))
+            elif ns == NS_O:
+                cands.append((pfx, "ga" if attr else "g"))
+            elif ns == "" and ctx["tns"] and not ctx.get("chameleon"):
+                cands.append((pfx, "na" if attr else "n"))
+        cands = [c for c in cands if (c, attr) not in used_refs and (c[1], attr) not in {(x[0][1], x[1]) for x in used_refs}]
+        if not cands:
+            continue
+        c = rng.choice(cands)
+        used_refs.add((c, attr))
+        decls.append({"attr": attr, "kind": "ref", "prefix": c[0], "name": c[1]})
+    return decls
+
+
+def ns_sources(ctx, decls):
+    """the three schema documents: s.xsd (context `ctx`, root element r with the declarations), o.xsd, n.xsd"""
+    xmlns = "".join(f' xmlns:{p}="{u}"' for p, u in ctx["prefixes"].items())
+    if ctx["default"]:
+        xmlns += f' xmlns="{ctx["default"]}"'
+    tns = f' targetNamespace="{ctx["tns"]}"' if ctx["tns"] and not ctx.get("chameleon") else ""
+    forms = (f' elementFormDefault="{ctx["eform"]}"' if ctx["eform"] else "") + (f' attributeFormDefault="{ctx["aform"]}"' if ctx["aform"] else "")
+    els, ats = [], []
+    for d in decls:
+        if d["kind"] == "ref":
+            q = (d["prefix"] + ":" if d["prefix"] is not None else "") + d["name"]
+            (ats if d["attr"] else els).append(f'<xs:attribute ref="{q}"/>' if d["attr"] else f'<xs:element ref="{q}" minOccurs="0"/>')
+        else:
+            form = f' form="{d["form"]}"' if d["form"] else ""
+            ta = f' targetNamespace="{d["tnsattr"]}"' if d.get("tnsattr") is not None else ""
+            (ats if d["attr"] else els).append(f'<xs:attribute name="{d["name"]}" type="xs:string"{form}{ta}/>' if d["attr"] else f'<xs:element name="{d["name"]}" type="xs:string" minOccurs="0"{form}{ta}/>')
+    imports = '<xs:import namespace="urn:o" schemaLocation="o.xsd"/>'
+    if ctx["tns"] and not ctx.get("chameleon"):
+        imports += '<xs:import schemaLocation="n.xsd"/>'
+    s = (f'<?xml version="1.0"?>\n<xs:schema xmlns:xs="http://www.w3.org/2001/XMLSchema"{xmlns}{tns}{forms}>\n {imports}\n'
+         f' <xs:element name="h" type="xs:string"/>\n <xs:attribute name="ha" type="xs:string"/>\n'
+         f' <xs:element name="r"><xs:complexType><xs:sequence>{"".join(els)}</xs:sequence>{"".join(ats)}</xs:complexType></xs:element>\n</xs:schema>\n')
+    o = ('<?xml version="1.0"?>\n<xs:schema xmlns:xs="http://www.w3.org/2001/XMLSchema" targetNamespace="urn:o">\n'
+         ' <xs:element name="g" type="xs:string"/>\n <xs:attribute name="ga" type="xs:string"/>\n</xs:schema>\n')
+    n = ('<?xml version="1.0"?>\n<xs:schema xmlns:xs="http://www.w3.org/2001/XMLSchema">\n'
+         ' <xs:element name="n" type="xs:string"/>\n <xs:attribute name="na" type="xs:string"/>\n</xs:schema>\n')
+    out = {"s.xsd": s, "o.xsd": o, "n.xsd": n}
+    if ctx.get("chameleon"):
+        # the document without target namespace is included by one that has it
+        out["m.xsd"] = (f'<?xml version="1.0"?>\n<xs:schema xmlns:xs="http://www.w3.org/2001/XMLSchema" targetNamespace="{ctx["tns"]}">\n'
+                        ' <xs:include schemaLocation="s.xsd"/>\n</xs:schema>\n')
+    return out
+
+
+def ns_entry(ctx):
+    return ["m.xsd"] if ctx.get("chameleon") else ["s.xsd"]
+
+
+def real_ns_attrs(ctx, decls):
+    """SchemaParser (with the includer's target namespace for a chameleon include) + SchemaMapper: the
+    namespace of the class of r and of the attr of every declaration"""
+    from xsdata.codegen.mappers.schema import SchemaMapper
+    from xsdata.codegen.parsers.schema import SchemaParser
+    from xsdata.models.xsd import Schema
+
+    text = ns_sources(ctx, decls)["s.xsd"]
+    parser = SchemaParser(location="mem.xsd", target_namespace=ctx["tns"] if ctx.get("chameleon") else None)
+    schema = parser.from_bytes(text.encode(), Schema)
+    root = next(c for c in SchemaMapper.map(schema) if c.name == "r")
+    els = [a for a in root.attrs if a.is_element]
+    ats = [a for a in root.attrs if a.is_attribute]
+    out = []
+    for d in decls:
+        pool = ats if d["attr"] else els
+        out.append(next(a for a in pool if a.name == d["name"]).namespace)
+    return {"class": root.namespace, "attrs": out}
+
+
+def real_ns_meta(cases):
+    """Filters.field_metadata (the namespace entry) and XmlMetaBuilder.resolve_namespaces on constructed attrs"""
+    from xsdata.codegen.models import Attr, AttrType, Class
+    from xsdata.formats.dataclass.filters import Filters
+    from xsdata.formats.dataclass.models.builders import XmlVarBuilder
+    from xsdata.formats.dataclass.models.elements import XmlType
+    from xsdata.models.config import GeneratorConfig
+    from xsdata.models.enums import DataType, Tag
+
+    filters = Filters(GeneratorConfig())
+    out = []
+    for c in cases:
+        tag = Tag.ATTRIBUTE if c["is_attr"] else Tag.ELEMENT
+        attr = Attr(name="x", tag=tag, namespace=c["attr"], types=[AttrType(qname=str(DataType.STRING), native=True)])
+        obj = Class(qname="r", tag=Tag.ELEMENT, location="mem", attrs=[attr])
+        meta = filters.field_metadata(obj, attr, c["parent"]).get("namespace")
+        nss = XmlVarBuilder.resolve_namespaces(XmlType.ATTRIBUTE if c["is_attr"] else XmlType.ELEMENT, meta, c["parent"])
+        out.append({"meta": meta, "bound": (nss[0] if nss else None)})
+    return out
+
+
+def real_ns_fields(ctx, decls):
+    """whole pipeline + XmlContext: the namespace of the qualified name the class of r and every field is bound to"""
+    import codegen_run as CG
+    from xsdata.formats.dataclass.context import XmlContext
+    from xsdata.utils.namespaces import split_qname
+
+    g = CG.run_pipeline(ns_sources(ctx, decls), entry=ns_entry(ctx))
+    try:
+        if g.error is not None:
+            raise g.error
+        meta = XmlContext().build(g.classes()["R"])
+        els = {}
+        for v in meta.get_element_vars():
+            els[split_qname(v.qname)[1]] = split_qname(v.qname)[0]
+        ats = {split_qname(v.qname)[1]: split_qname(v.qname)[0] for v in meta.get_attribute_vars()}
+        fields = [(ats if d["attr"] else els).get(d["name"], "MISSING") or None for d in decls]
+        return {"class": split_qname(meta.qname)[0] or None, "fields": fields}
+    finally:
+        g.close()
+
+
+def ns_doc(ctx, decls, present):
+    """an instance of r carrying the declared children / attributes `present` (indexes) under their spec names"""
+    tns = ctx["tns"] or ""
+    nsmap = {}
+
+    def q(ns, name):
+        if not ns:
+            return name
+        pfx = nsmap.setdefault(ns, f"p{len(nsmap)}")
+        return f"{pfx}:{name}"
+
+    root = q(tns, "r")
+    kids = "".join(f"<{q(ns_spec(ctx, d), d['name'])}>v{i}</{q(ns_spec(ctx, d), d['name'])}>" for i, d in enumerate(decls) if not d["attr"] and i in present)
+    ats = "".join(f' {q(ns_spec(ctx, d), d["name"])}="w{i}"' for i, d in enumerate(decls) if d["attr"] and i in present)
+    decl = "".join(f' xmlns:{p}="{u}"' for u, p in nsmap.items())
+    return f"<{root}{decl}{ats}>{kids}</{root}>"
+
+
+# --------------------------------------------------------------------------
 # real sites
 # --------------------------------------------------------------------------
 def renumber(sites):
